@@ -19,6 +19,27 @@ CHECKS = {
         'construction is covered by C08.',
         'DESIGN.md §4 C10',
     ),
+    'C11': (
+        'exploration',
+        'Hypothesis-generated structures/strings from a placeholder grammar against a hand-written reference substituter; '
+        'metamorphic checks (second application, copies, two global_vars assignments) at function and Config/Chain level',
+        'Strings are built from fragments that include defined/undefined/adjacent/repeated placeholders and brace noise; '
+        'every string at every depth is compared with an independent scanner, non-strings type-strictly, and the '
+        'persistence representation (repr, copies, storage key) is checked through real Config/Chain objects incl. '
+        '`uses` paths, context values and object-definition arguments. Sampled exploration.',
+        'Placeholders only in string values (not mapping keys); identifier-like names.',
+        'DESIGN.md §4 C11',
+    ),
+    'C14': (
+        'exploration',
+        'Hypothesis-generated operation sequences (get / get_or_compute / force / failing computer / sub-caches / re-open '
+        '/ file damage) against a dictionary model; every strict prefix of written cache files enumerated',
+        'A dictionary model predicts return value, computer call count and exception of every operation for every cache '
+        'type; damage steps (delete, empty, truncate, garbage, foreign key) are part of the sequences and all truncation '
+        'lengths of generated entries are enumerated (exhaustive per entry up to 400 bytes).',
+        'Corrupt = content the loader rejects; single-threaded.',
+        'DESIGN.md §4 C14',
+    ),
     'C16': (
         'exploration',
         'Hypothesis-generated classes with cached methods and call sequences (binding x spelling x control keyword) '
